@@ -29,8 +29,8 @@ class MarkerTable:
         self.keep = []
 
     def seed(self, marker, t):
+        # not entered into by_id: a seed's canonical marker may be a lower-numbered seed with an equal value
         self.tab[marker] = t
-        self.by_id[t.get_id()] = marker
 
     def canonical(self, t):
         """Lowest-numbered marker whose term equals `t` under the path condition (forking on
